@@ -120,7 +120,9 @@ def decoded_text_from_binary(
         size = -1
     rawdata = binary_file.read(size)
     result = rawdata.decode("utf-8", errors="replace")
-    return result.replace("\r\n", "\n")
+    # A lone carriage return is a line ending as well (as in universal
+    # newlines mode); the tag patterns only know about '\n'.
+    return result.replace("\r\n", "\n").replace("\r", "\n")
 
 
 def _contains_snippet(binary_file: BinaryIO) -> bool:
